@@ -24,6 +24,7 @@ type replayJob struct {
 	Repeat   int         `json:"repeat"` // run up to Repeat times until an assertion fails / panic (map order)
 	WantFail bool        `json:"want_fail"`
 	Thorough bool        `json:"thorough"` // the path was explored at the thorough bounds
+	Mid      bool        `json:"mid"`      // ... at the intermediate ones
 }
 
 type replayOut struct {
@@ -125,6 +126,7 @@ func TestReplay(t *testing.T) {
 			n = 1
 		}
 		vrt.NativeThorough = j.Thorough
+		vrt.NativeMid = j.Mid
 		for i := 0; i < n; i++ {
 			tries++
 			if loopTicksReset != nil {
